@@ -95,6 +95,8 @@ pub struct S {
 
 pub struct M {
     pub spec: SpecId,
+    /// start from the histories that are already inside nested frames
+    pub nested: bool,
 }
 
 fn base_db() -> CacheDB<EmptyDB> {
@@ -230,6 +232,16 @@ impl Model for M {
         format!("journal/{:?}", self.spec)
     }
     fn inits(&self) -> Vec<Vec<Op>> {
+        if self.nested {
+            return vec![
+                // non-initial starts inside nested frames: an outer frame has already written a slot and a
+                // transient slot and an inner frame is open (so that "inner writes the same location, commits,
+                // outer reverts" is within the depth bound)
+                vec![Op::Load(0), Op::LoadCode(1), Op::Checkpoint, Op::Sstore(1, 0, 1), Op::Tstore(1, 0, 1), Op::Checkpoint],
+                // an outer frame moved value, an inner frame wrote storage, logged and committed
+                vec![Op::Load(0), Op::LoadCode(1), Op::Checkpoint, Op::Transfer(0, 1, V::One), Op::Checkpoint, Op::Sstore(1, 1, 2), Op::Log, Op::Commit],
+            ];
+        }
         vec![
             vec![],
             // non-initial start: caller and contract loaded, as at the start of a call frame
@@ -477,7 +489,7 @@ const SPECS: [SpecId; 4] = [SpecId::FRONTIER, SpecId::SPURIOUS_DRAGON, SpecId::B
 pub fn replay(case: &Value) -> Vec<Violation> {
     let name = case["model"].as_str().unwrap_or("");
     for sp in SPECS {
-        let m = M { spec: sp };
+        let m = M { spec: sp, nested: false };
         if m.name() == name {
             return explore::replay_value(&m, case);
         }
@@ -490,17 +502,20 @@ pub fn run(ctx: &Ctx) -> i32 {
     let depth = ctx.tier.pick(4, 5);
     let mut acc = Acc::new();
     for sp in SPECS {
-        let a = explore::explore(&M { spec: sp }, depth, ctx);
+        let a = explore::explore(&M { spec: sp, nested: false }, depth, ctx);
+        acc.merge(a);
+        // the histories that start inside nested frames are explored one level less deep
+        let a = explore::explore(&M { spec: sp, nested: true }, depth - 1, ctx);
         acc.merge(a);
     }
     let meta = Meta {
-        rule: "BFS over JournaledState operation histories (4 specs, 2 initial histories), de-duplicated by the full public state + journal + snapshot stack; distinct = distinct (state, op kind, result, nesting)".into(),
+        rule: "BFS over JournaledState operation histories (4 specs, 5 initial histories incl. two that start inside nested frames), de-duplicated by the full public state + journal + snapshot stack; distinct = distinct (state, op kind, result, nesting)".into(),
         assumptions: vec![
             "operations are issued under the calling contract EvmContext follows (accounts loaded before use, LIFO checkpoints)".into(),
             "address 0x03's surviving touch (consensus quirk) is outside the alphabet".into(),
             "selfdestruct whose beneficiary balance would exceed 2^256-1 is not driven here (see C08)".into(),
         ],
-        bounds: json!({"depth": depth, "max_nested_checkpoints": 3, "specs": ["FRONTIER","SPURIOUS_DRAGON","BERLIN","CANCUN"], "world": "5 accounts incl. absent, RICH (2^256-1), tx-pre-warmed address, access-list slot"}),
+        bounds: json!({"depth": depth, "depth_from_nested_starts": depth - 1, "max_nested_checkpoints": 3, "specs": ["FRONTIER","SPURIOUS_DRAGON","BERLIN","CANCUN"], "world": "5 accounts incl. absent, RICH (2^256-1), tx-pre-warmed address, access-list slot"}),
         min_distinct: 1000,
         exhaustive: true,
         explanation: "reference = snapshot of the observable projection at each checkpoint; compared on every revert/commit".into(),
